@@ -95,6 +95,23 @@ pub struct StunAttributes { _p: () }
 impl StunAttributes {
     // representation invariant of the attribute set (unit attrset): established by Default, kept by add/remove
     pub uninterp spec fn wf(&self) -> bool;
+    // the attributes in wire order: ordinary ones in first-insertion order, then MI, SHA256, FINGERPRINT (unit attrset)
+    pub uninterp spec fn flat(&self) -> Seq<StunAttribute>;
+}
+// C13 vocabulary, defined in the units that prove it: cred (mech_prepared_*), attrset (fp_added = add_fingerprint_attribute)
+pub uninterp spec fn mech_prepared_request(m: CredentialMechanismClient, s0: StunAttributes, s1: StunAttributes) -> bool;
+pub uninterp spec fn mech_prepared_indication(m: CredentialMechanismClient, s0: StunAttributes, s1: StunAttributes) -> bool;
+pub uninterp spec fn fp_added(s0: StunAttributes, s1: StunAttributes) -> bool;
+// what the client makes of the application's attribute set before encoding (C13): first the mechanism's preparation
+// (credential attributes replaced / appended, integrity attributes under the right key), then FINGERPRINT if configured
+pub open spec fn prepared(is_request: bool, m: Option<CredentialMechanismClient>, use_fingerprint: bool, s0: StunAttributes, s2: StunAttributes) -> bool {
+    exists|s1: StunAttributes| #[trigger] mech_step(is_request, m, s0, s1) && (if use_fingerprint { fp_added(s1, s2) } else { s2 == s1 })
+}
+pub open spec fn mech_step(is_request: bool, m: Option<CredentialMechanismClient>, s0: StunAttributes, s1: StunAttributes) -> bool {
+    match m {
+        Some(mm) => if is_request { mech_prepared_request(mm, s0, s1) } else { mech_prepared_indication(mm, s0, s1) },
+        None => s1 == s0,
+    }
 }
 #[verifier::external_body]
 pub struct MessageEncoder { _p: () }
@@ -127,6 +144,7 @@ impl MessageDecoder {
 pub fn create_stun_message(method: MessageMethod, class: MessageClass, transaction_id: Option<TransactionId>,
     attributes: StunAttributes) -> (r: StunMessage)
     ensures r.smethod() == method, r.sclass() == class, transaction_id is Some ==> r.sid() == transaction_id->Some_0,
+        r.attrs_view() == attributes.flat(),
 { unimplemented!() }
 // fingerprint.rs (contracts proved in unit attrset)
 //@include inc/attr_abs.rs
@@ -139,7 +157,7 @@ pub open spec fn fp_verdict(raw: Seq<u8>, msg: StunMessage) -> Option<bool> { fp
 #[verifier::external_body]
 pub fn add_fingerprint_attribute(attributes: &mut StunAttributes)
     requires old(attributes).wf(),
-    ensures final(attributes).wf(),
+    ensures final(attributes).wf(), fp_added(*old(attributes), *final(attributes)),
 { unimplemented!() }
 
 // credential mechanism (units cred): abstract state; `violated` is the documented marker set of C17
@@ -159,6 +177,14 @@ impl CredentialMechanismClient {
 }
 
 // ---------------------------------------------------------------- client.rs
+// C13: `bytes` is the encoding of a message of the asked method and class whose attributes are, in order, the
+// application's attribute set as prepared by the mechanism and the fingerprint option
+pub open spec fn packet_of(c0: StunClient, method: MessageMethod, class: MessageClass, app: StunAttributes, s2: StunAttributes,
+    msg: StunMessage, bytes: Seq<u8>) -> bool {
+    &&& prepared(class is Request, c0.mechanism, c0.use_fingerprint, app, s2)
+    &&& msg.smethod() == method && msg.sclass() == class && msg.attrs_view() == s2.flat()
+    &&& bytes == wire_of(msg)
+}
 pub open spec fn sat_sub(a: int, b: int) -> int { if a >= b { a - b } else { 0 } }
 // `h1` is `h0` after RttCalcuator::update(r) (the contract proved in unit timers, restated as a relation)
 pub open spec fn rtt_updated(h0: RttCalcuator, h1: RttCalcuator, r: Duration) -> bool {
@@ -204,9 +230,18 @@ pub open spec fn rtt_updated(h0: RttCalcuator, h1: RttCalcuator, r: Duration) ->
 //@end
 //@item stun_agent :: mod client > fn prepare_stun_message
 //@tags C13 C10
+//@stmt "if use_fingerprint"
+    let ghost s1 = *attributes;
+    proof {
+        assert(mech_step(class is Request, (if mechanism is Some { Some(*old(mechanism->Some_0)) } else { None::<CredentialMechanismClient> }), *old(attributes), s1));
+    }
 //@spec
     requires old(attributes).wf(), mechanism is Some ==> old(mechanism->Some_0).wf(),
-    ensures mechanism is Some ==> final(mechanism->Some_0).violated() == old(mechanism->Some_0).violated() && final(mechanism->Some_0).wf(),
+    ensures mechanism is Some ==> final(mechanism->Some_0).violated() == old(mechanism->Some_0).violated() && final(mechanism->Some_0).wf()
+            && final(mechanism->Some_0).st() == old(mechanism->Some_0).st(),
+        final(attributes).wf(),
+        r is Ok ==> prepared(class is Request, (if mechanism is Some { Some(*old(mechanism->Some_0)) } else { None::<CredentialMechanismClient> }),
+            use_fingerprint, *old(attributes), *final(attributes)),
         r is Err ==> !(r->Err_0 is MaxOutstandingRequestsReached),
 //@end
 
@@ -479,6 +514,8 @@ impl StunClient {
         final(self).use_fingerprint == old(self).use_fingerprint,
         final(self).encoder == old(self).encoder, final(self).decoder == old(self).decoder,
         r is Err ==> !(r->Err_0 is MaxOutstandingRequestsReached),
+        final(attributes).wf(),
+        r is Ok ==> prepared(true, old(self).mechanism, old(self).use_fingerprint, *old(attributes), *final(attributes)),
 //@end
 //@item stun_agent :: mod client > impl StunClient > fn prepare_indication
 //@tags C13
@@ -491,6 +528,8 @@ impl StunClient {
         final(self).use_fingerprint == old(self).use_fingerprint,
         final(self).encoder == old(self).encoder, final(self).decoder == old(self).decoder,
         r is Err ==> !(r->Err_0 is MaxOutstandingRequestsReached),
+        final(attributes).wf(),
+        r is Ok ==> prepared(false, old(self).mechanism, old(self).use_fingerprint, *old(attributes), *final(attributes)),
 //@end
 //@item stun_agent :: mod client > impl StunClient > fn send_request
 //@tags C12 C11 C05 C06 C13 C15
@@ -500,6 +539,9 @@ impl StunClient {
     ensures x is InternalError,
 //@head
     broadcast use axiom_txid_key_model;
+    let ghost app0 = attributes;
+//@stmt "let msg ="
+    let ghost s2 = attributes;
 //@before "let transaction ="
     // freshness of the random 96-bit transaction id chosen by create_stun_message (assumption, see DESIGN.md)
     proof { assume(!self.transactions@.contains_key(msg.sid())); }
@@ -552,6 +594,10 @@ impl StunClient {
         assert(self.transaction_events.events@[1] is RestransmissionTimeOut);
         assert(self.notif_ok(self.transaction_events.events@[1]->RestransmissionTimeOut_0.0,
                     self.transaction_events.events@[1]->RestransmissionTimeOut_0.1, instant.ns@));
+        assert(prepared(true, old(self).mechanism, old(self).use_fingerprint, app0, s2));
+        assert(msg.attrs_view() == s2.flat());
+        assert(self.transactions@[id].packet@ == wire_of(msg));
+        assert(packet_of(*old(self), method, MessageClass::Request, app0, s2, msg, self.transactions@[id].packet@));
     }
 //@spec
     requires old(self).wf(), attributes.wf(),
@@ -581,6 +627,9 @@ impl StunClient {
             &&& final(self).transaction_events.events@[1] is RestransmissionTimeOut
             &&& final(self).notif_ok(final(self).transaction_events.events@[1]->RestransmissionTimeOut_0.0,
                     final(self).transaction_events.events@[1]->RestransmissionTimeOut_0.1, instant.ns@)
+            // C13: the packet is the encoding of a Request of the asked method carrying exactly the prepared attribute set
+            &&& exists|s2: StunAttributes, msg: StunMessage| #[trigger] packet_of(*old(self), method, MessageClass::Request, attributes, s2, msg,
+                    final(self).transactions@[id].packet@) && msg.sid() == id
         },
 //@end
 //@item stun_agent :: mod client > impl StunClient > fn send_indication
@@ -595,7 +644,21 @@ impl StunClient {
         final(self).use_fingerprint == old(self).use_fingerprint,
         r is Err ==> final(self).transaction_events == old(self).transaction_events,
         r is Ok ==> final(self).transaction_events.events@.len() == 1
-            && final(self).transaction_events.events@[0] is OutputPacket,
+            && final(self).transaction_events.events@[0] is OutputPacket
+            // C13: the packet is the encoding of an Indication of the asked method carrying the prepared attribute set
+            && exists|s2: StunAttributes, msg: StunMessage| #[trigger] packet_of(*old(self), method, MessageClass::Indication, attributes, s2, msg,
+                    final(self).transaction_events.events@[0]->OutputPacket_0@) && msg.sid() == r->Ok_0,
+//@head
+    let ghost app0 = attributes;
+//@stmt "let msg ="
+    let ghost s2 = attributes;
+//@tail
+    proof {
+        assert(packet_of(*old(self), method, MessageClass::Indication, app0, s2, msg, self.transaction_events.events@[0]->OutputPacket_0@));
+    }
+//@closure 1
+|e: StunEncodeError| -> (x: StunAgentError)
+    ensures x is InternalError,
 //@end
 //@item stun_agent :: mod client > impl StunClient > fn events
 //@tags C05
